@@ -15,7 +15,7 @@ import (
 func init() {
 	register(&propDef{
 		ID:          "C09",
-		Explanation: "The fixpoint equation fmt(fmt(x)) == fmt(x) itself is not decided. Decides the structural necessary condition named by the property's anchors — line-break decisions depend only on layout flags that re-parsing the output reproduces: the parser derives each layout flag (Element.IndentChildren, Element.IndentAttrs, GoCode.Multiline) from the presence of a line break inside a source span, so on the flag=false branch the formatter itself must add no line break inside that span, and on the flag=true branch it must add one. R1 in the node-list writer, the line-break constant can reach the trailing-space write only under the `indent` mode (every assignment of a newline-containing constant to the written value is control-dependent on the indent parameter; values taken from the source node are carried over, not added); R2 for each flag, the constants written directly on the false branch contain no line break and the true branch writes at least one; R3 no attribute writer (they run inside the open-tag span) writes a line-break constant unconditionally; R5 a formatter function that writes a trimmed copy of a field tests that same copy (not the raw field) for line breaks; R6 the import rewriter that `templ fmt` runs takes its decision on the number of imports only after the import set is final; R7 the node-list writer takes the recorded trailing space of every node kind that records one (through the interface, or a type switch covering all implementers); R8 the language server's formatting answer is one edit from 0:0 to <number of lines>:0 carrying the formatter's output, so format-on-save and `templ fmt` produce the same file; R9 (= C08.R7) a flag derived from a sibling field is derived from its final value (a quote choice taken before decoding yields output that the next pass cannot parse); R10 the import rewriter does not mutate a file's import list while ranging over it; R4 (purity) no formatter function (Write/String methods of parser nodes and what they call in the package) reads mutable package-level state, the clock, the environment or iterates a map. R11 the whitespace classifier (string → TrailingSpace) returns the vertical value only after a test for \"\\n\" — the one character the formatter writes, and every other layout decision counts, as a line break. NOT decided: nodes whose grammar allows but does not require a line break inside a single-line element (block component calls), expression text re-formatting by go/format, the fixpoint on concrete files.",
+		Explanation: "The fixpoint equation fmt(fmt(x)) == fmt(x) itself is not decided. Decides the structural necessary condition named by the property's anchors — line-break decisions depend only on layout flags that re-parsing the output reproduces: the parser derives each layout flag (Element.IndentChildren, Element.IndentAttrs, GoCode.Multiline) from the presence of a line break inside a source span, so on the flag=false branch the formatter itself must add no line break inside that span, and on the flag=true branch it must add one. R1 in the node-list writer, the line-break constant can reach the trailing-space write only under the `indent` mode (every assignment of a newline-containing constant to the written value is control-dependent on the indent parameter; values taken from the source node are carried over, not added); R2 for each flag, the constants written directly on the false branch contain no line break and the true branch writes at least one; R3 no attribute writer (they run inside the open-tag span) writes a line-break constant unconditionally; R5 a formatter function that writes a trimmed copy of a field tests that same copy (not the raw field) for line breaks; R6 the import rewriter that `templ fmt` runs takes its decision on the number of imports only after the import set is final; R7 the node-list writer takes the recorded trailing space of every node kind that records one (through the interface, or a type switch covering all implementers); R8 the language server's formatting answer is one edit from 0:0 to <number of lines>:0 carrying the formatter's output, so format-on-save and `templ fmt` produce the same file; R9 (= C08.R7) a flag derived from a sibling field is derived from its final value (a quote choice taken before decoding yields output that the next pass cannot parse); R10 the import rewriter does not mutate a file's import list while ranging over it; R4 (purity) no formatter function (Write/String methods of parser nodes and what they call in the package) reads mutable package-level state, the clock, the environment or iterates a map. R11 the whitespace classifier (string → TrailingSpace) returns the vertical value only after a test for \"\\n\" — the one character the formatter writes, and every other layout decision counts, as a line break. NOT decided: nodes whose grammar allows but does not require a line break inside a single-line element (block component calls), expression text re-formatting by go/format, the fixpoint on concrete files. R12 content text is written untransformed whatever the layout flags say (run of C08.R4 for idempotence).",
 		Assumptions: []string{"the parser sets a layout flag iff the corresponding source span contains a line break (elementparser.go / gocodeparser.go)"},
 		Trusted:     []string{"go/types", "x/tools go/packages"},
 		Run:         runC09,
@@ -74,6 +74,9 @@ func runC09(c *Ctx) {
 	derivedFlagsFresh(c, "C09.R9")
 	importListNotMutatedWhileRanged(c, "C09.R10")
 	lineBreakIsNewlineOnly(c, "C09.R11")
+	contentVerbatimRule = "C09.R12"
+	contentVerbatim(c, c.pkg("parser/v2"), c.pkg("generator"))
+	contentVerbatimRule = "C08.R4"
 	p := c.pkg("parser/v2")
 	info := p.TypesInfo
 
@@ -314,6 +317,71 @@ func runC09(c *Ctx) {
 				}
 				return true
 			})
+		}
+		// … or the flag is assigned the comparison itself (X.f = from.Line != to.Line), directly or as the result of a
+		// package-local function that computes it
+		if !set {
+			if st, ok := p.Types.Scope().Lookup(fl.typ).(*types.TypeName); ok {
+				if stt, ok := st.Type().Underlying().(*types.Struct); ok {
+					for i := 0; i < stt.NumFields(); i++ {
+						if stt.Field(i).Name() != fl.field {
+							continue
+						}
+						for _, sto := range fieldStoresOf(p, stt.Field(i)) {
+							lineCmp := func(e ast.Expr) bool {
+								found := false
+								ast.Inspect(e, func(n ast.Node) bool {
+									if be, ok := n.(*ast.BinaryExpr); ok && (be.Op == token.NEQ || be.Op == token.EQL || be.Op == token.GTR || be.Op == token.LSS) && strings.Contains(types.ExprString(be), ".Line") {
+										found = true
+									}
+									return true
+								})
+								return found
+							}
+							if lineCmp(sto.Rhs) {
+								set = true
+							}
+							if call, isCall := ast.Unparen(sto.Rhs).(*ast.CallExpr); isCall {
+								if fn := calleeOf(info, call); fn != nil && fn.Pkg() == p.Types {
+									for _, hfd := range allFuncDecls(p) {
+										if info.Defs[hfd.Name] != types.Object(fn) || hfd.Body == nil {
+											continue
+										}
+										// the result in that position: returned expressions, or what is assigned to the named result
+										var named types.Object
+										k := 0
+										if hfd.Type.Results != nil {
+											for _, r := range hfd.Type.Results.List {
+												for _, nm := range r.Names {
+													if k == sto.Res {
+														named = info.Defs[nm]
+													}
+													k++
+												}
+											}
+										}
+										ast.Inspect(hfd.Body, func(n ast.Node) bool {
+											switch x := n.(type) {
+											case *ast.ReturnStmt:
+												if sto.Res < len(x.Results) && lineCmp(x.Results[sto.Res]) {
+													set = true
+												}
+											case *ast.AssignStmt:
+												for li, l := range x.Lhs {
+													if id, ok := l.(*ast.Ident); ok && named != nil && info.ObjectOf(id) == named && len(x.Lhs) == len(x.Rhs) && lineCmp(x.Rhs[li]) {
+														set = true
+													}
+												}
+											}
+											return true
+										})
+									}
+								}
+							}
+						}
+					}
+				}
+			}
 		}
 		c.check(set, "C09.R2", pkgParser+"|flag-from-line-comparison:"+fl.field, "", "set when the span crosses a line",
 			"the parser no longer derives "+fl.field+" from a line comparison: the flag would not reproduce the formatter's own layout")
